@@ -11,6 +11,7 @@ value they denote, not by how they are spelled").
     `denotesLeOne v` ⇔ the double nearest to v is ≤ 1      ⇔ v ≤ 1 + 2^-53
     `NumVal.eqv`     — equality of the exact rationals (implies equality of the doubles; the
                         converse direction is only needed for by-value misses, which are notes).
+* `rustF64LeOne`, `numberIsZero` — the Rust predicates of the current code (see their docstrings).
 * `rustF32LeOne` — what `str::parse::<f32>(text).ok() <= Some(1.0)` computes
   (suspicious_reverse_loop.rs:59): Rust's float grammar accepts exactly the decimal forms below
   (no hex, no underscores); a parse failure is `None`, and `None <= Some(_)` is true; a success is
@@ -92,11 +93,34 @@ def numValue (text : String) : Option NumVal :=
   | some v => some v
   | none => decimalValue text.toList
 
-/-- `str::parse::<f32>(text).ok() <= Some(1.0)` -/
+/-- `str::parse::<f32>(text).ok() <= Some(1.0)` (suspicious_reverse_loop before /repo 9a12c1a; kept for reference) -/
 def rustF32LeOne (text : String) : Bool :=
   match decimalValue text.toList with
   | none => true
   | some v => v.f32LeOne
+
+/-- `if let Ok(end) = str::parse::<f64>(text); if end <= 1.0` (suspicious_reverse_loop.rs:59-60): Rust's
+float grammar on number tokens is `decimalValue`'s; the result is the correctly rounded double, which is
+`<= 1.0` iff the exact value is `≤ 1 + 2^-53` -/
+def rustF64LeOne (text : String) : Bool :=
+  match decimalValue text.toList with
+  | none => false
+  | some v => v.denotesLeOne
+
+/-- `text.parse::<f64>() == Ok(0.0)` -/
+def rustF64IsZero (cs : List Char) : Bool :=
+  match decimalValue cs with
+  | none => false
+  | some v => v.denotesZero
+
+/-- `ast_util::number_is_zero` (ast_util/mod.rs:51-56): after a `0x` / `0X` prefix, a non-empty run of
+`0`s; otherwise a text that parses as the double `0.0` -/
+def numberIsZero (text : String) : Bool :=
+  match text.toList with
+  | '0' :: x :: hex =>
+    if x = 'x' || x = 'X' then !hex.isEmpty && hex.all (· == '0')
+    else rustF64IsZero ('0' :: x :: hex)
+  | cs => rustF64IsZero cs
 
 /-- UTF-8 encoding of one character -/
 def charBytes (c : Char) : List Nat :=
